@@ -193,7 +193,14 @@ impl<'a, 'b> Syn<'a, 'b> {
                 let o = self.prefix(d - 1);
                 let n = self.t.choose(3);
                 let args = (0..n).map(|_| self.expr(d - 1)).collect();
-                Expr::MethodCall { obj: Box::new(o), name: self.field_name(), args, sugar: CallSugar::Parens }
+                let types = if self.o.luau && self.o.types && self.t.bool(25) {
+                    self.stat("method_type_instantiation");
+                    let k = 1 + self.t.choose(2);
+                    Some((0..k).map(|_| TypeArg::Type(unparen(self.ty(1)))).collect())
+                } else {
+                    None
+                };
+                Expr::MethodCall { obj: Box::new(o), name: self.field_name(), types, args, sugar: CallSugar::Parens }
             }
         }
     }
@@ -591,7 +598,7 @@ impl<'a, 'b> Syn<'a, 'b> {
                         let o = self.prefix(2);
                         let n = self.t.choose(3);
                         let args = (0..n).map(|_| self.expr(ed)).collect();
-                        Expr::MethodCall { obj: Box::new(o), name: self.field_name(), args, sugar: CallSugar::Parens }
+                        Expr::MethodCall { obj: Box::new(o), name: self.field_name(), types: None, args, sugar: CallSugar::Parens }
                     }
                     _ => self.call(2),
                 };
